@@ -397,6 +397,64 @@ Arguments LForEach {R} _.
 Arguments mkRow {R C} _ _ _ _ _.
 Arguments r_tid {R C} _.
 
+(* ------------------------------------------------------------------ arguments rendered per row *)
+
+(* The arguments of a Dataset.* field are rendered before the call, so ONE call site can name
+   another dataset on every row (`dataset: words_${{lang}}.csv`, `table: ${{...}}`).
+   evaluate_memorable_function keeps the state of an unnamed call under
+       (call site, tuple(args), tuple(kwargs.items()))
+   i.e. per call site AND rendered arguments.  [acall]: one evaluation of such a field — the call
+   site, the identity of the rendered argument tuple, the dataset those arguments name;
+   [args_run]: the evaluations of a run in the order they happen (any number of call sites and
+   argument tuples, interleaved in any way), each followed by the row's draw. *)
+Section ArgsMemo.
+Variable R : Type.
+
+Definition akey := (nat * nat)%type.          (* call site, rendered arguments *)
+Definition akey_eqb (a b : akey) : bool := Nat.eqb (fst a) (fst b) && Nat.eqb (snd a) (snd b).
+
+Record acall := mkCall { c_site : nat; c_args : nat; c_ds : dsref R }.
+Definition c_key (c : acall) : akey := (c_site c, c_args c).
+
+Fixpoint alookup (k0 : akey) (l : list (akey * iter R)) : option (iter R) :=
+  match l with
+  | [] => None
+  | (k, v) :: r => if akey_eqb k k0 then Some v else alookup k0 r
+  end.
+
+Fixpoint astore (k0 : akey) (v : iter R) (l : list (akey * iter R)) : list (akey * iter R) :=
+  match l with
+  | [] => [(k0, v)]
+  | (k, w) :: r => if akey_eqb k k0 then (k, v) :: r else (k, w) :: astore k0 v r
+  end.
+
+(* records handed out, and the error that ended the run (the failing row is not written) *)
+Fixpoint args_run (calls : list acall) (tbl : list (akey * iter R)) (orc : list Z)
+  : list R * option err :=
+  match calls with
+  | [] => ([], None)
+  | c :: rest =>
+    match (match alookup (c_key c) tbl with
+           | Some it => Ok (it, orc)
+           | None => new_iter R (c_ds c) orc            (* make_state_func *)
+           end) with
+    | Err e => ([], Some e)
+    | Ok (it, orc1) =>
+      match field_draw R it orc1 with
+      | Err e => ([], Some e)
+      | Ok (x, it', orc2) =>
+        let '(xs, e) := args_run rest (astore (c_key c) it' tbl) orc2 in (x :: xs, e)
+      end
+    end
+  end.
+
+(* how many of the evaluations in l were made under key k *)
+Definition prior (k : akey) (l : list acall) : nat :=
+  length (filter (fun c => akey_eqb (c_key c) k) l).
+
+End ArgsMemo.
+Arguments mkCall {R} _ _ _.
+
 (* ------------------------------------------------------------------ correspondence cases *)
 
 (* a cell is the text of a CSV field / SQL value as code points, None where the record has
@@ -695,7 +753,21 @@ Inductive case :=
           (tids : list nat) (exp_rows : list (row rec (list Z))) (exp_err : option err)
 (* an arbitrary text read by csv.reader (exp_rows) and, if the header names are distinct, drained
    through CSVDatasetLinearIterator (records delivered, whether it ended in a DataGenError) *)
-| CCsv (text : list Z) (exp_rows : list (list (list Z))) (exp_recs : option (list rec * bool)).
+| CCsv (text : list Z) (exp_rows : list (list (list Z))) (exp_recs : option (list rec * bool))
+(* the unnamed Dataset.iterate field evaluations of a run in the order they happen: (call site,
+   which of the datasets in tbl the rendered arguments name, repeat); the records of the rows that
+   were written (a prefix of the evaluations) and how the run ended *)
+| CArgs (tbl : list (list rec)) (calls : list (nat * nat * bool)) (exp : list rec) (exp_err : option err).
+
+Fixpoint calls_of (tbl : list (list rec)) (l : list (nat * nat * bool)) : option (list (acall rec)) :=
+  match l with
+  | [] => Some []
+  | (sid, a, rp) :: r =>
+    match nth_error tbl a, calls_of tbl r with
+    | Some data, Some cs => Some (mkCall sid a (mkDs data Linear rp None) :: cs)
+    | _, _ => None
+    end
+  end.
 
 Definition check_case (c : case) : bool :=
   match c with
@@ -712,5 +784,17 @@ Definition check_case (c : case) : bool :=
     | Some (rs, failed) =>
       let '(rs', failed') := delivered (snd (dict_reader rows)) in
       list_eqb rec_eqb rs' rs && Bool.eqb failed' failed
+    end
+  | CArgs tbl calls exp e =>
+    match calls_of tbl calls with
+    | None => false
+    | Some cs =>
+      let '(xs, e') := args_run rec cs [] [] in
+      Nat.leb (length exp) (length xs) && list_eqb rec_eqb (firstn (length exp) xs) exp &&
+      match e', e with
+      | Some _, None => false                        (* the model runs dry, the run went on *)
+      | None, None => Nat.eqb (length exp) (length xs)
+      | _, Some _ => true                            (* some other part of the recipe may have failed *)
+      end
     end
   end.
